@@ -246,6 +246,11 @@ def run(tier, seed):
             bad("counterexample", "oracle:glob-semantics", dict(
                 input=b, clause="a #glob matcher (or the implicit glob of package/deps/rdeps/binary/binary_id) "
                                 "matches exactly the strings its pattern denotes (*, ?, [set], {a,b})"))
+        rbad, rn = F.regex_semantics_disagreements(ri, rm)
+        chk.count("regex_semantics_pairs", rn)
+        for b in rbad[:2]:
+            bad("counterexample", "oracle:regex-semantics", dict(
+                input=b, clause="a /regex/ matcher matches exactly the strings containing a match of the pattern"))
         qj = [[world["ids"][q["pkg"]], q["binary_id"], q["binary_name"], q["kind"], q["platform"], q["test"]]
               for q in queries]
         impl = F.run_filterset(binary, [dict(op="eval", s=c["text"], default=c["default"][0] if c.get("default") else None,
